@@ -22,9 +22,14 @@ ASSUMPTIONS = [
     "reachable abstract state), with an IR key abstracted by what the function observes of it (first two characters, whether "
     "characters 2..4 are digits and their value, the captured fan token in none/f0..f3, whether it contains 'd1'); keys with other "
     "fan digits (the constructor raises KeyError on them) are outside the claim",
-    "get_remote (file + json + cache) is checked by the bounded native stand-in only",
+    "get_remote: open() gives a file object that the with-block closes on every way out, json.load(file) gives the database "
+    "mapping (environment contract; what the file holds is arbitrary: this id present or absent); the per-id dictionary is seen "
+    "from the requested id only (pre-state: cached or not; other ids may or may not be cached); SwitcherBreezeRemote(entry) by "
+    "contract = a fresh remote of that entry (its capabilities: units capabilities_*); cache RI (the entry under an id was built "
+    "from the database entry of that id) is combined over calls by a meta-argument (DESIGN.md 9.9)",
 ]
-BOUNDED_PARTS = ["get_remote (loads a file, json, caches per id): native check only",
+BOUNDED_PARTS = ["get_remote: the real file / json layer is exercised natively only (two database files sharing ids, interleaved and "
+                 "repeated requests, unknown ids)",
                  "the capability fold is also exercised natively on generated IR sets (quick 300, thorough 10,000)"]
 ENUMERATED = ["toggle x state x mode x fan x swing x previous state = 480 request shapes (complete)", "unsupported mode: 5 modes x 16 "
               "supported subsets", "temperature, min, max: solver variables"]
@@ -37,7 +42,71 @@ def E(n):
     return real_enum("aioswitcher.device", n)
 
 
+class KeyView:
+    """a dict seen from the one key under consideration (the requested remote id): membership / item access give the pre-state
+    entry or the last store; stores are logged; any access under another key, iteration, deletion ... is out of subset"""
+    def __init__(self, key, current):
+        self.key, self.current, self.stores = key, current, []
+
+
+class RemoteCtorContract:
+    """SwitcherBreezeRemote(ir_set) -> a fresh remote built from exactly that set (what the constructor makes of a set is the
+    capabilities lemma of this property); used by the get_remote unit only"""
+    qualname = R + "SwitcherBreezeRemote"
+
+    def apply(self, ip, c, args, kwargs, ctx):
+        ctx.used_contracts.add(self.qualname + "(ir_set) -> fresh remote of that set (capabilities: units capabilities_*)")
+        o = Obj(c, {"$built_from": args[0] if len(args) == 1 and not kwargs else None})
+        _gr_events(ctx).append(("construct", o))
+        return o
+
+
+def _gr_events(ctx):
+    ev = getattr(ctx, "gr_events", None)
+    if ev is None:
+        ev = []
+        ctx.gr_events = ev
+    return ev
+
+
+def keyview_method(ip, o, name, args, kw, ctx):
+    from pyvc.interp import Unsupported, PyExc, MethodRef
+    from pyvc.sym import ExcVal
+    if not isinstance(o, KeyView):
+        return NotImplemented
+    if name == "__getattr__":
+        if args[0] in ("get",):
+            return MethodRef(o, args[0])
+        raise Unsupported(f"{args[0]} on the per-id dictionary")
+    if name in ("__contains__", "__getitem__", "get", "__setitem__") and args[0] is not o.key:
+        raise Unsupported("access to another id's entry")
+    cur = o.stores[-1][1] if o.stores else o.current
+    if name == "__contains__":
+        return cur is not None
+    if name == "get":
+        return cur if cur is not None else (args[1] if len(args) > 1 else None)
+    if name == "__getitem__":
+        if cur is None:
+            raise PyExc(ExcVal("KeyError", ("id",)))
+        return cur
+    if name == "__setitem__":
+        o.stores.append((args[0], args[1]))
+        if getattr(o, "log", None) is not None:
+            o.log.append(("store", o, args[1]))
+        return None
+    if name in ("__bool__", "__len__"):
+        # the dictionary may hold other ids: non-empty when this id is present, otherwise empty or not (both explored)
+        if cur is not None or ctx.fork(2):
+            return True if name == "__bool__" else ctx.fresh_int("cache_size", 1, 1000)
+        return False if name == "__bool__" else 0
+    raise Unsupported(f"{name} on the per-id dictionary")
+
+
 def interp_for(unit):
+    if unit.name == "get_remote":
+        ip = make_interp(contracts={RemoteCtorContract.qualname: RemoteCtorContract()})
+        ip.method_models.insert(0, keyview_method)
+        return ip
     ip = make_interp(contracts={})
     irmodel.install(ip)
     from pyvc import capmodel
@@ -231,6 +300,66 @@ def units(tier):
                               log.stores[0][1].d == {"Para": "P-of-this-wave", "HexCode": "H-of-this-wave"})]
             return obs
         u[f"capabilities_step_{subset}"] = Unit(f"capabilities_step_{subset}", PROP, cap_step, functions=[RC], max_paths=200000)
+
+    # ---- get_remote: per-id cache in front of the JSON database file (environment: open / json.load; constructor by contract)
+    def get_remote(ip, ctx):
+        from pyvc.interp import EnvObj, Builtin, Unsupported
+        from pyvc.sym import array_gen, char_fact
+        MG = R + "SwitcherBreezeRemoteManager"
+        rid = Seq('str', [array_gen("remote_id", sym_int(ctx, "remote_id_len", 0, 16), (), char_fact)])
+        path = Seq('str', [array_gen("db_path", sym_int(ctx, "db_path_len", 1, 64), (), char_fact)])
+        ev = _gr_events(ctx)
+
+        def open_model(ip_, a, k, c):
+            f = EnvObj("file", path=a[0] if a else None, mode=(a[1] if len(a) > 1 else k.get("mode", "r")), closed=False)
+            ev.append(("open", f))
+            return f
+        ip.builtins["open"] = Builtin("open", open_model)
+        mgr = ip.instantiate(cls(MG), [path], {}, ctx)
+        fresh = mgr.attrs.get("_remotes_db")
+        obs = [Obligation(f"{PROP}/get_remote/new_manager_has_an_empty_cache_and_keeps_its_path", ctx,
+                          isinstance(fresh, PyDict) and not fresh.d and mgr.attrs.get("_remotes_db_fpath") is path and not ev)]
+        cached = bool(ctx.fork(2))
+        in_db = True if cached else bool(ctx.fork(2))
+        old = Obj(cls(R + "SwitcherBreezeRemote"), {"$built_from": "an earlier call"})
+        view = KeyView(rid, old if cached else None)
+        view.log = ev
+        mgr.attrs["_remotes_db"] = view
+        entry = PyDict({"IRSetID": "the entry of this id"})
+        db = KeyView(rid, entry if in_db else None)
+
+        def load_model(ip_, a, k, c):
+            if not (len(a) == 1 and isinstance(a[0], EnvObj) and a[0].kind == "file") or k:
+                raise Unsupported("json.load on something else than the opened file")
+            ev.append(("load", a[0], a[0].state["closed"]))
+            return db
+        ip.ext_models["json.load"] = Builtin("load", load_model)
+        ob = outcome_of(lambda: ip.call_function(func(MG + ".get_remote"), [mgr, rid], {}, ctx))
+        base = f"{PROP}/get_remote/" + ("cached" if cached else "first_request_" + ("id_in_database" if in_db else "id_not_in_database"))
+        frame = mgr.attrs.get("_remotes_db") is view and mgr.attrs.get("_remotes_db_fpath") is path and not db.stores
+        obs.append(Obligation(base + "/manager_fields_and_database_untouched", ctx, frame))
+        opens = [e for e in ev if e[0] == "open"]
+        loads = [e for e in ev if e[0] == "load"]
+        built = [e[1] for e in ev if e[0] == "construct"]
+        # RI of the cache (kept by the store clause, established by the empty cache): the entry under an id was built from the
+        # database entry of that id.  The result must be such a remote: the cached one, or one built in this call.
+        obs.append(Obligation(base + "/every_file_opened_is_the_configured_one_read_only_and_closed_afterwards", ctx,
+                              all(f[1].state["path"] is path and f[1].state["mode"] in ("r", "rt", "rb") and f[1].state["closed"] is True for f in opens)
+                              and all(not e[2] for e in loads)))
+        obs.append(Obligation(base + "/every_remote_built_is_built_from_this_ids_entry", ctx, all(o.attrs.get("$built_from") is entry for o in built)))
+        if cached or in_db:
+            good = ([old] if cached else []) + built
+            obs += [Obligation(base + "/returns_this_ids_remote", ctx, ob[0] == "ret" and any(ob[1] is g for g in good),
+                               note=str(ob[1]) if ob[0] == "exc" else ""),
+                    Obligation(base + "/what_is_cached_under_this_id_is_the_remote_returned", ctx,
+                               ob[0] == "ret" and all(k is rid and v is ob[1] for k, v in view.stores))]
+        else:
+            obs += [Obligation(base + "/raises_KeyError", ctx, ob[0] == "exc" and ob[1].cls == "KeyError", note=str(ob[1])),
+                    Obligation(base + "/nothing_built_nothing_cached", ctx, not built and not view.stores)]
+        if cached:
+            obs.append(Obligation(base + "/a_cached_remote_needs_no_second_file", ctx, len(opens) <= 1))
+        return obs
+    u["get_remote"] = Unit("get_remote", PROP, get_remote, functions=[R + "SwitcherBreezeRemoteManager.__init__", R + "SwitcherBreezeRemoteManager.get_remote"])
 
     def canary(ip, ctx):
         remote, W, mint, maxt = make_remote(ip, ctx, False, list(Mode))
